@@ -213,7 +213,7 @@ def run(ctx, prop):
     rp  = rpload.load()
     rng = ctx.rng
     ops_l, impl = [], []
-    cases = [copy.deepcopy(c) for c in CORPUS] + [gen(rng) for _ in range(ctx.n(150, 5000))]
+    cases = [copy.deepcopy(c) for c in CORPUS] + [gen(rng) for _ in range(ctx.n(220, 6000))]
     for spec, ops in cases:
         r, trace = run_real(rp, spec, ops)
         ops_l.append({'op': 'nodelist', 'nodes': spec['nodes'], 'cpn': spec['cpn'], 'gpn': spec['gpn'], 'lfs_pn': spec['lfs_pn'],
@@ -238,6 +238,17 @@ CORPUS = [
       ['find', 2, {'n_cores': 1, 'core_occ': 16, 'n_gpus': 0, 'gpu_occ': 16, 'lfs': 0, 'mem': 0}, 4],
       ['find', 3, {'n_cores': 1, 'core_occ': 16, 'n_gpus': 0, 'gpu_occ': 16, 'lfs': 0, 'mem': 0}, 4],
       ['release', 2], ['release', 3]]),
+    # the application supplies a slot of its own that names a GPU another task holds, while the core of the same
+    # index is free again; then the pilot's ACTIVE update arrives once more and a further request is made
+    ({'nodes': [{'cores': [0, 0, 0, 0], 'gpus': [0, 0], 'lfs': 0, 'mem': 0}], 'cpn': 4, 'gpn': 2, 'lfs_pn': 0, 'mem_pn': 0},
+     [['find', 0, {'n_cores': 1, 'core_occ': 16, 'n_gpus': 0, 'gpu_occ': 16, 'lfs': 0, 'mem': 0}, 1],
+      ['find', 1, {'n_cores': 1, 'core_occ': 16, 'n_gpus': 1, 'gpu_occ': 16, 'lfs': 0, 'mem': 0}, 1],
+      ['release', 0],
+      ['alloc', 2, 0, {'node': 0, 'cores': [[0, 16]], 'gpus': [[0, 16]], 'lfs': 0, 'mem': 0}],
+      ['alloc', 3, 0, {'node': 0, 'cores': [[0, 16]], 'gpus': [[1, 16]], 'lfs': 0, 'mem': 0}],
+      ['update'],
+      ['find', 4, {'n_cores': 2, 'core_occ': 16, 'n_gpus': 0, 'gpu_occ': 16, 'lfs': 0, 'mem': 0}, 1],
+      ['release', 1], ['release', 3], ['release', 4]]),
 ]
 
 
